@@ -105,7 +105,7 @@ pub fn run(cx: &mut Ctx) {
     }
     // filesystem part: localized operations address layer/<expected localized path>
     if !miri {
-        let n = cx.a.n(400, 20_000);
+        let n = cx.a.n(2_000, 30_000);
         for _ in 0..n {
             cx.case("fs_localized_ops", |c| {
                 c.sit("fs_localized_ops");
